@@ -18,6 +18,9 @@ def gen_cases(tier, seed):
         r = rng(seed, "tape", "own", k)
         nf = r.choice([0, 1, 1, 2, 2, 3, 4, 6])
         specs = [G.gen_file(r, "tape") for _ in range(nf)]
+        for j in range(1, len(specs)):
+            if r.random() < 0.25:
+                specs[j]["name"] = specs[j - 1]["name"]            # the same name more than once on one tape
         yield {"id": "own/%d" % k, "kind": "own", "files": specs}
     # every data length 0..1300 (thorough) / boundary sweep (quick), single file
     lens = range(0, 1301) if thorough else list(range(0, 20)) + list(range(250, 262)) + list(range(505, 516)) + list(range(760, 770)) + [1019, 1020, 1021, 1275]
